@@ -105,6 +105,9 @@ Definition show_task_item (y : N * nat * output) : list string :=
   | OWire tx id => ["w" ++ show_N tx ++ ":" ++ show_nat id ++ "@" ++ show_N (fst x) ++ "#" ++ show_nat (snd (fst y))]
   | OWireFail tx id => ["x" ++ show_N tx ++ ":" ++ show_nat id]
   | OListen LConnected => ["lN@" ++ show_N (fst x)]
+  | OListen LConnecting => ["lC@" ++ show_N (fst x)]
+  | OListen (LWaitFailed d) => ["lF" ++ show_N d ++ "@" ++ show_N (fst x)]
+  | OListen (LWaitDisc d) => ["lW" ++ show_N d ++ "@" ++ show_N (fst x)]
   | OListen l => [show_cstate l]
   | ODial => ["d"]
   | OEnd e => ["e" ++ show_serr e ++ "@" ++ show_N (fst x)]
